@@ -169,7 +169,23 @@ static void run_seq(long seq, int target, const op_t *ops, int n)
 		jwt_builder_enable_iat(b, 0);
 		if (target == 0) { t.obj = b; t.set = bhs; t.get = bhg; t.del = bhd; run_on(&t); }
 		else if (target == 1) { t.obj = b; t.set = bcs; t.get = bcg; t.del = bcd; run_on(&t); }
-		else { char *tok; jwt_builder_setcb(b, cb_run, NULL); tok = jwt_builder_generate(b); free(tok); }
+		else {
+			/* the builder holds values of every type; the callback edits only the per-token jwt_t, so the builder's own
+			 * maps must read the same before and after (the token's maps start as copies of these) */
+			char *tok, *hb, *cb, *ha, *ca;
+			jwt_value_t v;
+			jwt_set_SET_INT(&v, "a", 5); jwt_builder_header_set(b, &v); jwt_set_SET_INT(&v, "a", 5); jwt_builder_claim_set(b, &v);
+			jwt_set_SET_STR(&v, "b", "s"); jwt_builder_header_set(b, &v); jwt_set_SET_STR(&v, "b", "s"); jwt_builder_claim_set(b, &v);
+			jwt_set_SET_JSON(&v, "n", "{\"k\":[1,2]}"); jwt_builder_header_set(b, &v); jwt_set_SET_JSON(&v, "n", "{\"k\":[1,2]}"); jwt_builder_claim_set(b, &v);
+			jwt_set_GET_JSON(&v, NULL); jwt_builder_header_get(b, &v); hb = v.json_val;
+			jwt_set_GET_JSON(&v, NULL); jwt_builder_claim_get(b, &v); cb = v.json_val;
+			jwt_builder_setcb(b, cb_run, NULL); tok = jwt_builder_generate(b); free(tok);
+			jwt_set_GET_JSON(&v, NULL); jwt_builder_header_get(b, &v); ha = v.json_val;
+			jwt_set_GET_JSON(&v, NULL); jwt_builder_claim_get(b, &v); ca = v.json_val;
+			printf("[\"BB\",%ld,%d,", seq, target); vh_put_jstr(stdout, hb); printf(","); vh_put_jstr(stdout, cb); printf(",");
+			vh_put_jstr(stdout, ha); printf(","); vh_put_jstr(stdout, ca); printf("]\n");
+			free(hb); free(cb); free(ha); free(ca);
+		}
 		jwt_builder_free(b);
 	} else {
 		jwt_checker_t *c = jwt_checker_new();
